@@ -4,7 +4,8 @@
 // Part 1 (serialiser): helpers::xml_escape and TelemetryData::to_xml over hostile event texts in every text field of the event
 // and of the VM metadata. Part 2 (batching): EventReader::process_events reading real event files and POSTing to a loopback
 // HTTP listener owned by this witness (no mock from the tree is used), including events around and above the 64 KiB limit,
-// a corrupt file, several files, and one upload failure (HTTP 500) followed by success.
+// a corrupt file, several files, and scripted answers of the host to the telemetry POST: accepted with 200 / 201 / 202 / 204,
+// refused with 302 / 307 / 404 / 429 / 500 / 503 or by dropping the connection, refusals followed by an acceptance.
 //
 // Oracle = the statement:
 //   * every batch is a well-formed XML document smaller than 64 KiB            -> independent scanner below, body.len() < 65536
@@ -12,8 +13,11 @@
 //     that of a batch of the same number of harmless events, the CDATA section of an event is closed only by the serialiser's
 //     own terminator, its payload is itself well-formed (no attribute value terminated early) and every text of the event is
 //     found, after un-escaping, as a complete attribute value
-//   * each event is uploaded in at most one batch                             -> an event id occurs in at most one accepted POST,
-//     never twice inside a batch, and every POST that carries it has the same body (a retry of the same batch)
+//   * each event is uploaded in at most one batch                             -> an event id occurs in at most one accepted POST
+//     (accepted = the host answered with a 2xx status), is never posted again after the POST the host accepted, never occurs twice
+//     inside a batch, and every POST that carries it has the same body (a retry of the same batch after a refusal).
+//     The retry pause of the reader is 15 s: the scenarios with scripted answers are observed for 25 s (accepted at once) or
+//     55 s (refused first), all of them concurrently with the rest of the enumeration
 //   * an event too large for any batch is dropped rather than blocking the rest -> events whose single-event document is >= 64 KiB
 //     are in no batch; with no upload failure every other event is in exactly one
 //   * processing terminates and removes the files it consumed                 -> time limit; no *.json file left
@@ -662,10 +666,48 @@ fn part1_serialiser(out: &mut Out) {
 #[derive(Clone)]
 struct Post {
     accepted: bool,
+    answer: Ans,
     body: Vec<u8>,
 }
 
-fn serve(listener: std::net::TcpListener, posts: Arc<Mutex<Vec<Post>>>, fail_first: usize, stop: Arc<std::sync::atomic::AtomicBool>) {
+// what the fake host does with a telemetry POST: answer with a status, or read it and drop the connection without an answer
+#[derive(Clone, Copy, Debug, PartialEq)]
+enum Ans {
+    Status(u16),
+    Drop,
+}
+
+impl Ans {
+    // the host took the batch: any success status
+    fn accepted(&self) -> bool {
+        matches!(self, Ans::Status(s) if (200..300).contains(s))
+    }
+    fn show(&self) -> String {
+        match self {
+            Ans::Status(s) => s.to_string(),
+            Ans::Drop => "connection dropped after the request was read".to_string(),
+        }
+    }
+}
+
+fn reason(status: u16) -> &'static str {
+    match status {
+        200 => "OK",
+        201 => "Created",
+        202 => "Accepted",
+        204 => "No Content",
+        302 => "Found",
+        307 => "Temporary Redirect",
+        404 => "Not Found",
+        429 => "Too Many Requests",
+        500 => "Internal Server Error",
+        503 => "Service Unavailable",
+        _ => "Status",
+    }
+}
+
+// the k-th POST is answered with script[k], POSTs after the end of the script with `then`
+fn serve(listener: std::net::TcpListener, posts: Arc<Mutex<Vec<Post>>>, script: Vec<Ans>, then: Ans, stop: Arc<std::sync::atomic::AtomicBool>) {
     use std::io::Read;
     loop {
         let (mut stream, _) = match listener.accept() {
@@ -708,21 +750,24 @@ fn serve(listener: std::net::TcpListener, posts: Arc<Mutex<Vec<Post>>>, fail_fir
             }
         }
         let body = buf[he..std::cmp::min(buf.len(), he + clen)].to_vec();
-        let accepted = {
+        let answer = {
             let mut p = posts.lock().unwrap();
-            let accepted = p.len() >= fail_first;
+            let answer = *script.get(p.len()).unwrap_or(&then);
             if head.starts_with("post ") {
-                p.push(Post { accepted, body });
+                p.push(Post { accepted: answer.accepted(), answer, body });
             }
-            accepted
+            answer
         };
-        let resp = if accepted {
-            "HTTP/1.1 200 OK\r\ncontent-length: 0\r\nconnection: close\r\n\r\n"
-        } else {
-            "HTTP/1.1 500 Internal Server Error\r\ncontent-length: 0\r\nconnection: close\r\n\r\n"
-        };
-        let _ = stream.write_all(resp.as_bytes());
-        let _ = stream.flush();
+        if let Ans::Status(st) = answer {
+            let port = stream.local_addr().map(|a| a.port()).unwrap_or(0);
+            let resp = match st {
+                204 => format!("HTTP/1.1 204 {}\r\nconnection: close\r\n\r\n", reason(st)),
+                300..=399 => format!("HTTP/1.1 {} {}\r\nlocation: http://127.0.0.1:{}/machine/?comp=telemetrydata&moved=1\r\ncontent-length: 0\r\nconnection: close\r\n\r\n", st, reason(st), port),
+                _ => format!("HTTP/1.1 {} {}\r\ncontent-length: 0\r\nconnection: close\r\n\r\n", st, reason(st)),
+            };
+            let _ = stream.write_all(resp.as_bytes());
+            let _ = stream.flush();
+        }
         let _ = stream.shutdown(std::net::Shutdown::Both);
     }
 }
@@ -731,8 +776,19 @@ struct Scenario {
     name: String,
     files: Vec<Vec<Event>>, // one vector per event file
     corrupt_file: bool,
-    fail_first: usize,
+    script: Vec<Ans>, // answers to the first POSTs
+    then: Ans,        // answer to every later POST
     time_limit: Duration,
+    background: bool, // scripted answers (retry pauses of 15 s): runs concurrently with the rest of the enumeration
+}
+
+impl Scenario {
+    fn refusals(&self) -> usize {
+        self.script.iter().filter(|a| !a.accepted()).count() + if self.then.accepted() { 0 } else { 1 }
+    }
+    fn copy(&self) -> Scenario {
+        Scenario { name: self.name.clone(), files: self.files.iter().map(|f| f.iter().map(clone_event).collect()).collect(), corrupt_file: self.corrupt_file, script: self.script.clone(), then: self.then, time_limit: self.time_limit, background: self.background }
+    }
 }
 
 fn marker(id: usize) -> String {
@@ -791,8 +847,8 @@ async fn run_scenario(sc: &Scenario, m: &VmMetaData, seq: usize) -> (Verdict, Ve
     let posts: Arc<Mutex<Vec<Post>>> = Arc::new(Mutex::new(Vec::new()));
     let stop = Arc::new(std::sync::atomic::AtomicBool::new(false));
     {
-        let (p, st, ff) = (posts.clone(), stop.clone(), sc.fail_first);
-        std::thread::spawn(move || serve(listener, p, ff, st));
+        let (p, st, script, then) = (posts.clone(), stop.clone(), sc.script.clone(), sc.then);
+        std::thread::spawn(move || serve(listener, p, script, then, st));
     }
 
     let key_keeper = KeyKeeperSharedState::start_new();
@@ -809,9 +865,14 @@ async fn run_scenario(sc: &Scenario, m: &VmMetaData, seq: usize) -> (Verdict, Ve
     let work = tokio::spawn(async move {
         reader.process_events(&client, &m2).await;
     });
+    let abort = work.abort_handle();
     let verdict = match tokio::time::timeout(sc.time_limit, work).await {
         Ok(_) => Verdict::Finished,
-        Err(_) => Verdict::TimedOut,
+        Err(_) => {
+            // a reader that is pausing before a retry can be cancelled (one that never yields cannot)
+            abort.abort();
+            Verdict::TimedOut
+        }
     };
     stop.store(true, std::sync::atomic::Ordering::SeqCst);
     let _ = std::net::TcpStream::connect(("127.0.0.1", port));
@@ -836,13 +897,17 @@ fn judge(out: &mut Out, sc: &Scenario, m: &VmMetaData, verdict: Verdict, posts: 
         "scenario '{}': {} file(s){}, {} events, single-event document sizes {:?}{}",
         sc.name, sc.files.len(), if sc.corrupt_file { " + 1 corrupt .json file" } else { "" }, all.len(),
         { let mut v: Vec<usize> = all.iter().map(|e| single_size(e, m)).collect(); v.sort(); v.dedup(); if v.len() > 8 { let l = v.len(); let mut w = v[..4].to_vec(); w.extend_from_slice(&v[l - 4..]); w } else { v } },
-        if sc.fail_first > 0 { format!(", first {} POST(s) answered 500", sc.fail_first) } else { String::new() }
+        if sc.script.is_empty() && sc.then == Ans::Status(200) { String::new() } else { format!(", the host answers the telemetry POSTs with {:?}, every later one with {}", sc.script.iter().map(|a| a.show()).collect::<Vec<String>>(), sc.then.show()) }
     );
-    if let Verdict::TimedOut = verdict {
-        out.fail("EventReader::process_events", &input, &format!("still running after {} s ({} POSTs so far)", sc.time_limit.as_secs(), posts.len()), "processing terminates");
-        return false;
+    let timed_out = matches!(verdict, Verdict::TimedOut);
+    if timed_out {
+        out.fail("EventReader::process_events", &input, &format!("still running after {} s ({} POSTs so far, answered {:?}), event files not removed: {:?}", sc.time_limit.as_secs(), posts.len(), posts.iter().map(|p| p.answer.show()).collect::<Vec<String>>(), left), "processing terminates and removes the files it consumed");
+        if !sc.background {
+            return false;
+        }
+        // scripted scenario: what reached the host within the observation time is judged as well
     }
-    if !left.is_empty() {
+    if !timed_out && !left.is_empty() {
         out.fail("EventReader::process_events", &input, &format!("files left in the event directory: {:?}", left), "every consumed *.json file removed");
     }
     // per event id: (number of accepted POSTs carrying it, bodies carrying it)
@@ -907,6 +972,7 @@ fn judge(out: &mut Out, sc: &Scenario, m: &VmMetaData, verdict: Verdict, posts: 
             }
         }
     }
+    let mut repeated: std::collections::BTreeMap<(usize, Vec<usize>), Vec<usize>> = std::collections::BTreeMap::new();
     for e in &all {
         let id: usize = e.Message[3..9].parse().unwrap();
         let oversize = single_size(e, m) >= LIMIT;
@@ -915,17 +981,31 @@ fn judge(out: &mut Out, sc: &Scenario, m: &VmMetaData, verdict: Verdict, posts: 
         if carriers.windows(2).any(|w| posts[w[0]].body != posts[w[1]].body) {
             out.fail("EventReader::process_events", &input, &format!("event {} was sent in different batches (POSTs {:?})", id, carriers), "each event uploaded in at most one batch (re-sending the same batch after a failure excepted)");
         }
+        // one report per group of events that travelled in the same POSTs
         if n > 1 {
-            out.fail("EventReader::process_events", &input, &format!("event {} was accepted by the host {} times (POSTs {:?})", id, n, carriers), "each event uploaded in at most one batch");
+            repeated.entry((n, carriers.clone())).or_default().push(id);
+        } else if let Some(first_ok) = carriers.iter().position(|c| posts[*c].accepted) {
+            if first_ok + 1 < carriers.len() {
+                repeated.entry((n, carriers.clone())).or_default().push(id);
+            }
         }
         if oversize && !carriers.is_empty() {
             out.fail("EventReader::process_events", &input, &format!("oversize event {} (single-event document {} bytes) was sent", id, single_size(e, m)), "an event too large for any batch is dropped");
         }
-        if !oversize && sc.fail_first == 0 && n == 0 {
+        if !oversize && sc.refusals() == 0 && !timed_out && n == 0 {
             out.fail("EventReader::process_events", &input, &format!("event {} (single-event document {} bytes) was never uploaded although no upload failed", id, single_size(e, m)), "oversize events are dropped, the rest is uploaded");
         }
     }
-    true
+    for ((n, carriers), ids) in repeated.iter() {
+        let answers: Vec<String> = carriers.iter().map(|c| posts[*c].answer.show()).collect();
+        let which = if ids.len() == 1 { format!("event {}", ids[0]) } else { format!("{} events (ids {} .. {})", ids.len(), ids.iter().min().unwrap(), ids.iter().max().unwrap()) };
+        if *n > 1 {
+            out.fail("EventReader::process_events", &input, &format!("{}: accepted by the host {} times (carried by POSTs {:?}, answered {:?})", which, n, carriers, answers), "each event uploaded in at most one batch");
+        } else {
+            out.fail("EventReader::process_events", &input, &format!("{}: posted again after the host had accepted the upload (carried by POSTs {:?}, answered {:?})", which, carriers, answers), "each event uploaded in at most one batch");
+        }
+    }
+    !timed_out
 }
 
 fn scenarios(m: &VmMetaData) -> Vec<Scenario> {
@@ -945,34 +1025,50 @@ fn scenarios(m: &VmMetaData) -> Vec<Scenario> {
     let mut v: Vec<Scenario> = Vec::new();
     let limit = Duration::from_secs(15);
 
-    // the upload-failure scenario goes first in the list: it is started first and runs in the background (one 15 s retry pause)
-    v.push(Scenario { name: "first upload answered 500, then accepted".into(), files: vec![(0..120).map(|k| small(&texts, k)).collect()], corrupt_file: false, fail_first: 1, time_limit: Duration::from_secs(55) });
+    // the scenarios with scripted answers go first in the list: they are started first and run in the background, concurrently
+    // (the reader pauses 15 s before it retries a refused upload).
+    // (a) the host ACCEPTS the upload with a success status: the events must never be posted again and the file is removed;
+    //     observed for 25 s (a retry would come after 15 s)
+    let accepted_limit = Duration::from_secs(25);
+    v.push(Scenario { name: "upload accepted with 200".into(), files: vec![(0..40).map(|k| small(&texts, k)).collect()], corrupt_file: false, script: vec![], then: Ans::Status(200), time_limit: accepted_limit, background: true });
+    v.push(Scenario { name: "upload accepted with 201".into(), files: vec![(0..40).map(|k| small(&texts, k + 1)).collect()], corrupt_file: false, script: vec![], then: Ans::Status(201), time_limit: accepted_limit, background: true });
+    v.push(Scenario { name: "uploads of several batches accepted with 202".into(), files: vec![(0..6).map(|k| sized_event(fresh(), 21_845 + k * 37, m)).collect()], corrupt_file: false, script: vec![], then: Ans::Status(202), time_limit: accepted_limit, background: true });
+    v.push(Scenario { name: "uploads of two files accepted with 204".into(), files: vec![(0..30).map(|k| small(&texts, k + 2)).collect(), (0..3).map(|k| small(&texts, k + 5)).collect()], corrupt_file: false, script: vec![], then: Ans::Status(204), time_limit: accepted_limit, background: true });
+    v.push(Scenario { name: "first upload accepted with 202, any later POST would be refused".into(), files: vec![(0..20).map(|k| small(&texts, k + 3)).collect()], corrupt_file: false, script: vec![Ans::Status(202)], then: Ans::Status(500), time_limit: accepted_limit, background: true });
+    // (b) the host REFUSES first (the events may be retried), then accepts: accepted once in total
+    let refused_limit = Duration::from_secs(55);
+    v.push(Scenario { name: "first upload answered 500, then accepted".into(), files: vec![(0..120).map(|k| small(&texts, k)).collect()], corrupt_file: false, script: vec![Ans::Status(500)], then: Ans::Status(200), time_limit: refused_limit, background: true });
+    v.push(Scenario { name: "first upload answered 302, then accepted with 201".into(), files: vec![(0..25).map(|k| small(&texts, k + 4)).collect()], corrupt_file: false, script: vec![Ans::Status(302)], then: Ans::Status(201), time_limit: refused_limit, background: true });
+    v.push(Scenario { name: "first upload answered 404, then accepted with 202".into(), files: vec![(0..25).map(|k| small(&texts, k + 6)).collect()], corrupt_file: false, script: vec![Ans::Status(404)], then: Ans::Status(202), time_limit: refused_limit, background: true });
+    v.push(Scenario { name: "first upload dropped without an answer, then accepted with 204".into(), files: vec![(0..25).map(|k| small(&texts, k + 8)).collect()], corrupt_file: false, script: vec![Ans::Drop], then: Ans::Status(204), time_limit: refused_limit, background: true });
+    v.push(Scenario { name: "uploads answered 503, 307, then accepted with 200".into(), files: vec![(0..25).map(|k| small(&texts, k + 9)).collect()], corrupt_file: false, script: vec![Ans::Status(503), Ans::Status(307)], then: Ans::Status(200), time_limit: refused_limit, background: true });
+    v.push(Scenario { name: "uploads answered 429, dropped, then accepted with 202; two batches".into(), files: vec![(0..4).map(|k| sized_event(fresh(), 21_845 + k * 41, m)).collect()], corrupt_file: false, script: vec![Ans::Status(429), Ans::Drop], then: Ans::Status(202), time_limit: refused_limit, background: true });
 
-    v.push(Scenario { name: "300 small events with hostile texts in one file".into(), files: vec![(0..300).map(|k| small(&texts, k)).collect()], corrupt_file: false, fail_first: 0, time_limit: limit });
+    v.push(Scenario { name: "300 small events with hostile texts in one file".into(), files: vec![(0..300).map(|k| small(&texts, k)).collect()], corrupt_file: false, script: vec![], then: Ans::Status(200), time_limit: limit, background: false });
     v.push(Scenario {
         name: "three files, an empty file and a corrupt file".into(),
         files: vec![(0..5).map(|k| small(&texts, k)).collect(), Vec::new(), (0..90).map(|k| small(&texts, k + 11)).collect(), (0..1).map(|k| small(&texts, k + 3)).collect()],
-        corrupt_file: true, fail_first: 0, time_limit: limit,
+        corrupt_file: true, script: vec![], then: Ans::Status(200), time_limit: limit, background: false,
     });
-    v.push(Scenario { name: "only a corrupt file".into(), files: vec![], corrupt_file: true, fail_first: 0, time_limit: limit });
+    v.push(Scenario { name: "only a corrupt file".into(), files: vec![], corrupt_file: true, script: vec![], then: Ans::Status(200), time_limit: limit, background: false });
 
     // single events right at the limit
     for target in [LIMIT - 2, LIMIT - 1, LIMIT, LIMIT + 1, 70_000, 200_000] {
         let e = sized_event(fresh(), target, m);
-        v.push(Scenario { name: format!("one event whose single-event document has {} bytes", target), files: vec![vec![e]], corrupt_file: false, fail_first: 0, time_limit: limit });
+        v.push(Scenario { name: format!("one event whose single-event document has {} bytes", target), files: vec![vec![e]], corrupt_file: false, script: vec![], then: Ans::Status(200), time_limit: limit, background: false });
     }
     // oversize events at every position among small ones (events are taken from the end of the file)
     for pos in 0..4 {
         let mut evs: Vec<Event> = (0..3).map(|k| small(&texts, k + pos)).collect();
         evs.insert(pos, sized_event(fresh(), LIMIT + 10, m));
-        v.push(Scenario { name: format!("oversize event at position {} of 4", pos), files: vec![evs], corrupt_file: false, fail_first: 0, time_limit: limit });
+        v.push(Scenario { name: format!("oversize event at position {} of 4", pos), files: vec![evs], corrupt_file: false, script: vec![], then: Ans::Status(200), time_limit: limit, background: false });
     }
     {
         let mut evs: Vec<Event> = Vec::new();
         for k in 0..3 {
             evs.push(sized_event(fresh(), LIMIT + k * 1000, m));
         }
-        v.push(Scenario { name: "only oversize events".into(), files: vec![evs], corrupt_file: false, fail_first: 0, time_limit: limit });
+        v.push(Scenario { name: "only oversize events".into(), files: vec![evs], corrupt_file: false, script: vec![], then: Ans::Status(200), time_limit: limit, background: false });
     }
     // accumulation boundary: two or three events whose common document is just below / at / above the limit
     {
@@ -991,9 +1087,9 @@ fn scenarios(m: &VmMetaData) -> Vec<Scenario> {
                 }
                 let last = total + (n - 1) * empty - (n - 1) * s;
                 evs.push(sized_event(fresh(), last, m));
-                v.push(Scenario { name: format!("{} events whose common document has {} bytes", n, total), files: vec![evs.iter().map(clone_event).collect()], corrupt_file: false, fail_first: 0, time_limit: limit });
+                v.push(Scenario { name: format!("{} events whose common document has {} bytes", n, total), files: vec![evs.iter().map(clone_event).collect()], corrupt_file: false, script: vec![], then: Ans::Status(200), time_limit: limit, background: false });
                 evs.reverse();
-                v.push(Scenario { name: format!("{} events whose common document has {} bytes (reversed)", n, total), files: vec![evs], corrupt_file: false, fail_first: 0, time_limit: limit });
+                v.push(Scenario { name: format!("{} events whose common document has {} bytes (reversed)", n, total), files: vec![evs], corrupt_file: false, script: vec![], then: Ans::Status(200), time_limit: limit, background: false });
             }
         }
     }
@@ -1004,7 +1100,7 @@ fn scenarios(m: &VmMetaData) -> Vec<Scenario> {
                 sized_event(fresh(), size + k * 37, m)
             })
             .collect();
-        v.push(Scenario { name: format!("12 events of about {} bytes", size), files: vec![evs], corrupt_file: false, fail_first: 0, time_limit: limit });
+        v.push(Scenario { name: format!("12 events of about {} bytes", size), files: vec![evs], corrupt_file: false, script: vec![], then: Ans::Status(200), time_limit: limit, background: false });
     }
     v
 }
@@ -1019,11 +1115,13 @@ fn console_vxw_c18() {
     let scs = scenarios(&m);
     let mut stuck = false;
     rt.block_on(async {
-        // the failure scenario (index 0) runs concurrently with the others
-        let m0 = m.clone();
-        let sc0 = Scenario { name: scs[0].name.clone(), files: scs[0].files.iter().map(|f| f.iter().map(clone_event).collect()).collect(), corrupt_file: scs[0].corrupt_file, fail_first: scs[0].fail_first, time_limit: scs[0].time_limit };
-        let bg = tokio::spawn(async move { run_scenario(&sc0, &m0, 0).await });
-        for (k, sc) in scs.iter().enumerate().skip(1) {
+        // the scenarios with scripted answers run concurrently with each other and with the others
+        let mut bg = Vec::new();
+        for (k, sc) in scs.iter().enumerate().filter(|(_, sc)| sc.background) {
+            let (m0, sc0) = (m.clone(), sc.copy());
+            bg.push((k, tokio::spawn(async move { run_scenario(&sc0, &m0, k).await })));
+        }
+        for (k, sc) in scs.iter().enumerate().filter(|(_, sc)| !sc.background) {
             let (verdict, posts, left, dir) = run_scenario(sc, &m, k).await;
             let go_on = judge(&mut out, sc, &m, verdict, posts, left);
             let _ = std::fs::remove_dir_all(&dir);
@@ -1033,11 +1131,13 @@ fn console_vxw_c18() {
             }
         }
         if !stuck {
-            if let Ok((verdict, posts, left, dir)) = bg.await {
-                if !judge(&mut out, &scs[0], &m, verdict, posts, left) {
-                    stuck = true;
+            for (k, handle) in bg {
+                if let Ok((verdict, posts, left, dir)) = handle.await {
+                    if !judge(&mut out, &scs[k], &m, verdict, posts, left) {
+                        stuck = true;
+                    }
+                    let _ = std::fs::remove_dir_all(&dir);
                 }
-                let _ = std::fs::remove_dir_all(&dir);
             }
         }
     });
